@@ -133,7 +133,13 @@ def build_program(cases):
             # rep(n+1, it): expansions it=0..n. to keep slots aligned, expansions 0..n-1 go to a sink
             # segment and the observed one is a direct call with the iterator bound through a rep of count 1
             # shifted: rep(1, it) t i (it + n)  -> iterator value 0, argument it+n == n
-            out.append(f'rep(1, it) t{i} ' + ', '.join(a if a != 'it' else f'it + {n}' for a in rest))
+            call = f'rep(1, it) t{i} ' + ', '.join(a if a != 'it' else f'it + {n}' for a in rest)
+            if i % 2:
+                # every other case: the rep sits in a macro whose own parameter is spelled like the iterator - inside the rep's arguments the
+                # name means the iterator (the innermost binding), whichever of the two substitutions is performed first
+                out.append(f'def shadow{i} it {{\n    {call}\n}}\nshadow{i} 12345')
+            else:
+                out.append(call)
     if use_labels:
         out.append(LABEL_SEGMENT)
     return '\n'.join(out) + '\n'
@@ -411,6 +417,11 @@ def work(task):
     from fjv.enginecheck import scratch
     from fjv.ref import expr as R5
     fam, tier, part, nparts = task
+    import resource
+    soft, hard = resource.getrlimit(resource.RLIMIT_AS)
+    resource.setrlimit(resource.RLIMIT_AS, (4 << 30, hard))   # a runaway big-number computation ends in MemoryError, not in the host's OOM killer
+    cpu = 240 if tier != 'thorough' else 3600                  # ... and one that only burns CPU inside a C-level big-number operation (no signal
+    resource.setrlimit(resource.RLIMIT_CPU, (cpu, resource.getrlimit(resource.RLIMIT_CPU)[1]))   # handler runs there) ends the worker
     sieve = Sieve(PROP)
     stats = {'evaluated': 0, 'programs': 0, 'skipped_undefined': 0, 'skipped_too_big': 0, 'generated': 0}
     tags = set()
@@ -544,7 +555,17 @@ def main():
         return replay(args)
     run = Run(PROP, 'exploration', args)
     total, samples, ntags, discr = {}, [], 0, {}
-    for stats, res, sample, tags, d in pmap(work, make_tasks(args.tier, args.only), args.jobs):
+    from fjv.runner import Crash
+    tasks = make_tasks(args.tier, args.only)
+    for ti, item in enumerate(pmap(work, tasks, args.jobs, on_crash='yield')):
+        if isinstance(item, Crash):
+            # every generated expression has a small defined value: an assembler that exhausts the worker's 4 GiB address space (or dies) on
+            # one of them computed something else
+            run.report({'kind': 'the assembling process died while evaluating small expressions', 'class': f'worker died [{tasks[ti][0]}]',
+                        'case': {'task': list(tasks[ti])}, 'expected': 'every expression of the family evaluates to a value of at most 300 bits',
+                        'observed': str(item)[:300], 'summary': f'family {tasks[ti][0]} part {tasks[ti][2]}: the worker died ({str(item)[:120]})'})
+            continue
+        stats, res, sample, tags, d = item
         for k, v in stats.items():
             total[k] = total.get(k, 0) + v
         run.merge(res)
